@@ -305,11 +305,16 @@ def cross_process(run):
     for hs, o in outs.items():
         for key in ref:
             if o[key] != ref[key]:
+                comp = [i for i in range(3) if o[key][i] != ref[key][i]][0]
+                what = ('group creation order', 'inverse workers',
+                        'gradient sources')[comp]
                 run.violation(
                     'xproc-differs',
                     f'assignment {key} (world/k/catalogue/colocate/rank) '
                     f'derived under PYTHONHASHSEED={hs} differs from the one '
-                    f'under PYTHONHASHSEED=0: {o[key][1]} vs {ref[key][1]}')
+                    f'under PYTHONHASHSEED=0 in its {what}: '
+                    f'{str(o[key][comp])[:120]} vs '
+                    f'{str(ref[key][comp])[:120]}')
                 return
     run.seen('nontrivial', ('xproc', len(ref)))
 
